@@ -70,6 +70,12 @@ def run(res):
                 if a is not None and a[3]:
                     n_enum_args += 1
                     en = protocol.get_enum(iname, a[3][0])
+                    if en is None:
+                        # the property itself on /repo (what C07_shipped_db_wf states of the regenerated data): an argument declared
+                        # with an enum that does not exist can never be annotated with its entries
+                        res.disagree('an argument is tagged with an enum that does not exist', [iname, m[0], a[0], a[3][0]], 'an existing enum',
+                                     'protocol.get_enum(%r, %r) is None' % (iname, a[3][0]),
+                                     sig={'entry': 'dangling-enum', 'iface': iname, 'message': m[0], 'arg': a[0]}, theorem='C07_shipped_db_wf')
                     if en is not None:
                         ev = [e.value for e in en.entries.values()]
                         vals += ev + [max(ev) + 1 if ev else 5]
